@@ -231,9 +231,12 @@ class Session:
         kwo = dict(opts or {}) if ty in ('string', 'textfile', 'textfiles') else {}
         # age the references so that any rewrite (even with identical bytes inside one clock tick)
         # shows up as a changed mtime
-        for p in self.path_types:
-            if os.path.exists(self.refpath(p)):
-                os.utime(self.refpath(p), ns=(946684800 * 10**9, 946684800 * 10**9))
+        # (only in every other call: a rewrite within the same second as the previous write must be seen as well, by
+        # the library and by this observer, which looks at mtime_ns and a content hash anyway)
+        if self.nact % 2 == 0 and getattr(self, 'ageing', True):
+            for p in self.path_types:
+                if os.path.exists(self.refpath(p)):
+                    os.utime(self.refpath(p), ns=(946684800 * 10**9, 946684800 * 10**9))
         before = self.stat()
         self.nact += 1
         detail = ''
